@@ -18,7 +18,6 @@ import copy
 import json
 import os
 import re
-import sys
 import traceback
 import warnings
 from pathlib import Path
@@ -32,6 +31,9 @@ RULE = (
     "unsupported one (call, method call, lambda, binop, dict/set display, comprehensions, walrus, f-string, starred, await, "
     "yield, slice) x random JSON contexts (nested lists/dicts, big ints, unicode); the string handed to evaluate_expression is "
     "parsed with ast.parse by the harness and that tree is serialised for the model, so both sides evaluate the same tree; "
+    "a `pairs` stream puts two related random values (equal, equal up to bool/int, prefix, one element changed, reordered dict) "
+    "under p and q and runs every operator / subscript / unary template on them (primitive semantics); "
+    "an exhaustive matrix (every unary/comparison/boolean/subscript operator x every pair of 20 operand kinds, ~11k expressions); "
     "a separate malformed stream (random fragments, null bytes, lone surrogates, BOM, nesting 150..12000 deep around the "
     "depth bound, sandbox-escape strings) goes through the monitors and through the model as a Parsed class. "
     "A case is distinct by (text, context) and non-trivial when its tree has >= 2 nodes. Floats, bytes, complex, Ellipsis "
@@ -42,7 +44,8 @@ ASSUMPTIONS = [
     "arbitrary Python objects with user-defined __eq__/__hash__/__neg__ in a context are out of scope",
     "expression is a str (the property says 'input text'); non-str conditions are exercised but only reported as a note",
     "CPython 3.12 ast.parse; the harness thread's stack has > 2*(_MAX_DEPTH+1) free frames (true for the engine's handler threads)",
-    "`a is b` on two non-singleton objects is CPython-specific: such cases are compared by outcome class only",
+    "`a is b` on two non-singleton objects is CPython-specific (interning): such cases are monitored on the implementation "
+    "but not compared with the model (tag monitor-only:identity); `is` against None/True/False is compared exactly",
 ]
 TRUSTED_BASE = [
     "expression model starts at the AST: text -> tree is CPython's ast.parse on both sides (the harness serialises the tree "
@@ -569,7 +572,7 @@ def py_eval(text, context):
             return ("err", exc_class(e), e)
 
 
-def canon_outcome(res, class_only: bool) -> str | None:
+def canon_outcome(res, class_only: bool = False) -> str | None:
     if res[0] == "v":
         if class_only:
             return "v ?"
@@ -606,8 +609,8 @@ class Hits:
         self.count.clear()
 
 
-def expr_monitor(text: str, context: dict, res=None):
-    """The property as stated, on the implementation only. -> list of (what, signature)"""
+def expr_monitor(text: str, context: dict):
+    """The property as stated, on the implementation only. -> (outcome, [(what, signature)])"""
     out = []
     before = copy.deepcopy(context)
     res = py_eval(text, context)
@@ -656,9 +659,6 @@ def shrink_expr_case(rep: dict, sig: str) -> dict:
                 context = trial
                 break
     return {**rep, "context": context}
-
-
-_MIXINS = {}
 
 
 def caller_monitor(text: str, context: dict, direct) -> list[tuple[str, str]]:
@@ -755,7 +755,61 @@ def gen_value(rng, depth: int):
 
 def gen_context(rng) -> dict:
     n = rng.choice([0, 1, 2, 3, 4, 5, 6])
-    return {k: gen_value(rng, rng.choice([0, 1, 2, 3])) for k in rng.sample(KEYS, n)}
+    c = {k: gen_value(rng, rng.choice([0, 1, 2, 3])) for k in rng.sample(KEYS, n)}
+    for k in ("d", "cfg"):
+        if k in c and rng.random() < 0.7:   # make sure mappings and sequences are common under the usual names
+            c[k] = {rng.choice(KEYS + ["k1", ""]): gen_value(rng, 2) for _ in range(rng.choice([0, 1, 2, 3]))}
+    if "items" in c and rng.random() < 0.7:
+        c["items"] = [gen_value(rng, 1) for _ in range(rng.choice([0, 1, 2, 3, 5]))]
+    return c
+
+
+def mutate_value(rng, v):
+    """a value related to `v`: equal, equal up to bool/int, a prefix, one element changed, reordered dict"""
+    r = rng.random()
+    if r < 0.2:
+        return copy.deepcopy(v)
+    if isinstance(v, bool):
+        return int(v) if r < 0.6 else not v
+    if isinstance(v, int):
+        return rng.choice([v + 1, v - 1, -v, bool(v) if v in (0, 1) else v, str(v)])
+    if isinstance(v, str):
+        return rng.choice([v + "a", v[:-1], v[1:], v.upper(), v + v, "a" + v])
+    if isinstance(v, list):
+        w = copy.deepcopy(v)
+        if w and r < 0.5:
+            i = rng.randrange(len(w))
+            w[i] = mutate_value(rng, w[i])
+            return w
+        return rng.choice([w[:-1], w + [gen_value(rng, 1)], w[::-1], w + w])
+    if isinstance(v, dict):
+        items = list(copy.deepcopy(v).items())
+        rng.shuffle(items)
+        w = dict(items)
+        if w and r < 0.6:
+            k = rng.choice(list(w))
+            w[k] = mutate_value(rng, w[k])
+        elif r < 0.8:
+            w["extra"] = 1
+        return w
+    return rng.choice([0, "", [], {}, False])
+
+
+PAIR_TEMPLATES = ["p == q", "p != q", "p < q", "p <= q", "p > q", "p >= q", "p in q", "p not in q", "q in p", "p is q", "p is not None",
+                  "p[q]", "q[p]", "-p", "not p", "p.k", "p if q else 0", "[p] < [q]", "(p, 1) <= (q, 1)", "[p, q] == [q, p]", "p < q < p",
+                  "p == q == p", "(p, q) in [(q, p), (p, q)]", "p[0] < q[0]", "p[-1]", "p[True]", "p and q", "p or q", "[p][q]", "p[(q,)]",
+                  "(p,) < (q,)", "[[p]] >= [[q]]", "p in [q]", "p in (q, p)", "q[p] == p", "-p < q", "not p == q", "p.k[q]", "{k}[p]", "p[{k}]"]
+
+
+def gen_pair_case(rng):
+    a = gen_value(rng, rng.choice([0, 0, 1, 2, 2]))
+    b = mutate_value(rng, a) if rng.random() < 0.6 else gen_value(rng, rng.choice([0, 1, 2]))
+    t = rng.choice(PAIR_TEMPLATES).replace("{k}", rng.choice(["d", "'k'", "1", "items"]))
+    c = {"p": a, "q": b}
+    if rng.random() < 0.5:
+        c["d"] = {"k": a, "a": b}
+        c["items"] = [a, b, a]
+    return t, c
 
 
 CMP_TEXT = ["==", "!=", "<", "<=", ">", ">=", "is", "is not", "in", "not in"]
@@ -886,6 +940,33 @@ def deep_texts(rng, thorough: bool):
             yield "sub-in-key", "d" + "[d" * k + "]" * k
 
 
+MATRIX_CONTEXT = {"vN": None, "vT": True, "vF": False, "vI": 3, "vZ": 0, "vS": "ab", "vE": "", "vL": [1, "a"], "vLL": [[1], [1, 2]],
+                  "vD": {"ab": 1, "k": [1]}, "vDD": {"k": [1], "ab": True}}
+MATRIX_ATOMS = ["vN", "vT", "vF", "vI", "vZ", "vS", "vE", "vL", "vLL", "vD", "vDD", "vMissing", "(1, 'a')", "()", "[]", "'a'", "1", "-1",
+                "(vL, 1)", "[vD]"]
+
+
+def matrix_texts():
+    """every operator x every pair of operand kinds (exhaustive, ~6k expressions): the 'one operand-type combination' space"""
+    for a in MATRIX_ATOMS:
+        for op in ("not ", "-", "+", "~"):
+            yield f"{op}{a}"
+        yield f"{a}.ab"
+        yield f"{a}.k.x"
+        yield f"[{a}]"
+        yield f"({a},)"
+        yield f"1 if {a} else 2"
+        for b in MATRIX_ATOMS:
+            for op in CMP_TEXT:
+                yield f"{a} {op} {b}"
+            yield f"{a}[{b}]"
+            yield f"{a} and {b}"
+            yield f"{a} or {b}"
+            yield f"[{a}] < [{b}]"
+            yield f"{a} < {b} <= {a}"
+            yield f"-{a} == {b}"
+
+
 # ======================================================================================
 # expression part: suites
 # ======================================================================================
@@ -913,26 +994,45 @@ def expr_case(ctx, hits: Hits, text: str, context: dict, stream: str, inputs, li
     except Unrepresentable:
         ctx.tag("monitor-only:context")
         return
-    out = canon_outcome(res, ident_unspec)
+    if ident_unspec:
+        # `a is b` on two non-singleton objects: CPython interning decides (and through chain short-circuiting even the
+        # outcome class can depend on it, e.g. `'' is not '' <= true`); the theorems quantify over every identity oracle,
+        # the implementation is monitored, the model is not consulted
+        ctx.tag("monitor-only:identity")
+        return
+    out = canon_outcome(res, False)
     if out is None:
         ctx.tag("monitor-only:result")
         return
-    if ident_unspec:
-        ctx.tag("identity-unspecified")
     if GUARDS[4] != "1" and stream.startswith("deep") and 120 < len(text) // 12 and len(text) < 9000:
         return  # development mode against the unfixed code: CPython's exact recursion threshold is not modelled
     stack = MODEL_STACK if GUARDS[4] == "1" else 1000
     inputs.append({"text": text, "context": context, "stream": stream})
-    lines.append(" ".join(["expr", GUARDS, str(stack), "x" if ident_unspec else "0", *ctoks, *toks]))
+    lines.append(" ".join(["expr", GUARDS, str(stack), "0", *ctoks, *toks]))
     impl.append(out)
 
 
-def expr_suite(ctx, n_grammar: int, n_raw: int, deep: bool) -> None:
+def expr_suite(ctx, n_grammar: int, n_pairs: int, n_raw: int, deep: bool) -> None:
     rng = ctx.rng
     hits = Hits()
     inputs, lines, impl = [], [], []
+    sampled = [False]
+
+    def flush() -> None:
+        if lines and not sampled[0]:
+            i = min(11, len(lines) - 1)
+            ctx.sample({"suite": "expr", "text": inputs[i]["text"], "context": inputs[i]["context"], "line": lines[i][:300], "impl": impl[i][:200]})
+            sampled[0] = True
+        if lines:
+            ctx.correspond("expr", list(inputs), list(lines), list(impl))
+        inputs.clear()
+        lines.clear()
+        impl.clear()
+
     g = ExprGen(rng)
     for i in range(n_grammar):
+        if len(lines) >= 50000:
+            flush()
         text = g.expr(rng.choice([1, 2, 2, 3, 3, 4, 5]))
         if rng.random() < 0.04:
             text = rng.choice(OUTSIDE_MODEL).format(a=g.atom())
@@ -943,6 +1043,18 @@ def expr_suite(ctx, n_grammar: int, n_raw: int, deep: bool) -> None:
     for text in ["", " ", "\n", "\t \n", "true", "TRUE", " True ", "1", " 1", "false", "FALSE", "0", "0 ", "tRuE", "01", "1 ", "00", "truee",
                  "true false", "yes", "no", "on", "null", "none", "None", "true and false", "1 and 0", "not true", "not 1", "true == 1"]:
         expr_case(ctx, hits, text, gen_context(rng), "prologue", inputs, lines, impl, with_callers=True)
+    flush()
+    nm = 0
+    for text in matrix_texts():
+        nm += 1
+        expr_case(ctx, hits, text, copy.deepcopy(MATRIX_CONTEXT), "matrix", inputs, lines, impl, with_callers=(nm % 13 == 0))
+    ctx.extra["exhaustive_operator_x_operand_kind_matrix"] = nm
+    flush()
+    for i in range(n_pairs):
+        text, cx = gen_pair_case(rng)
+        expr_case(ctx, hits, text, cx, "pairs", inputs, lines, impl, with_callers=(i % 11 == 0))
+        if len(lines) >= 50000:
+            flush()
     for i in range(n_raw):
         expr_case(ctx, hits, gen_raw(rng), gen_context(rng), "raw", inputs, lines, impl, with_callers=(i % 5 == 0))
     # sandbox escapes: refused, and nothing happened
@@ -976,10 +1088,7 @@ def expr_suite(ctx, n_grammar: int, n_raw: int, deep: bool) -> None:
             nonstr.append(f"{v!r}->{r[1]}")
     if nonstr:
         ctx.notes.append("non-str expression (outside the property's quantifier) escapes with: " + ", ".join(nonstr))
-    if lines:
-        i = min(11, len(lines) - 1)
-        ctx.sample({"suite": "expr", "text": inputs[i]["text"], "context": inputs[i]["context"], "line": lines[i][:300], "impl": impl[i][:200]})
-    ctx.correspond("expr", inputs, lines, impl)
+    flush()
     hits.flush(ctx)
 
 
@@ -1045,8 +1154,8 @@ def run(ctx) -> None:
 
     core.ensure_repo_on_path()
     run_replays(ctx)
-    graph_suite(ctx, ctx.n(2500, 40000))
-    expr_suite(ctx, ctx.n(9000, 150000), ctx.n(2500, 40000), deep=True)
+    graph_suite(ctx, ctx.n(2500, 80000))
+    expr_suite(ctx, ctx.n(9000, 300000), ctx.n(4000, 120000), ctx.n(2500, 80000), deep=True)
 
 
 def search(ctx) -> None:
@@ -1054,6 +1163,11 @@ def search(ctx) -> None:
     hits = Hits()
     rng = ctx.rng
     g = ExprGen(rng)
+    for text in matrix_texts():
+        cx = copy.deepcopy(MATRIX_CONTEXT)
+        res, mon = expr_monitor(text, cx)
+        for what, sig in mon + caller_monitor(text, cx, res):
+            hits.add(what, sig, {"kind": "expr", "text": text, "context": MATRIX_CONTEXT})
     for i in range(ctx.n(40000, 300000)):
         text = g.expr(rng.choice([1, 2, 3, 4, 5])) if i % 3 else gen_raw(rng)
         context = gen_context(rng)
